@@ -68,9 +68,31 @@ def iter_source(ex, state, st):
     return ("value", v)
 
 
+def loop_ordinals(fnode):
+    """loops are keyed by their position in a pre-order walk of the function's AST (nested defs excluded):
+    stable under renaming of locals and reordering of non-loop statements, independent of the path taken"""
+    out = {}
+
+    def rec(node):
+        for ch in ast.iter_child_nodes(node):
+            if isinstance(ch, (ast.FunctionDef, ast.AsyncFunctionDef, ast.Lambda, ast.ClassDef)):
+                continue
+            if isinstance(ch, (ast.For, ast.While)):
+                out[id(ch)] = len(out)
+            rec(ch)
+    rec(fnode)
+    return out
+
+
 def exec_loop(ex, state, st, kind):
-    ordinal = ex.loop_ordinal
-    ex.loop_ordinal += 1
+    fi = state.frame.finfo
+    key = id(fi.node) if fi is not None else None
+    if key is not None:
+        if key not in ex.loop_maps:
+            ex.loop_maps[key] = loop_ordinals(fi.node)
+        ordinal = ex.loop_maps[key].get(id(st), -1)
+    else:
+        ordinal = -1
     spec = ex.loop_specs.get(ordinal)
     if spec is None:
         return unroll(ex, state, st, kind)
@@ -191,7 +213,12 @@ def cut_loop(ex, state, st, kind, spec, ordinal):
     def check(s, tag):
         for k, cl in enumerate(invs):
             t, side = calls.eval_clause(ex, s, contract, cl, _spec_env(ex, s), old_state=ex.unit_pre)
-            ex.oblige("inv-%s" % tag, s, t, label="loop%d.%d" % (ordinal, k), info={"clause": cl})
+            s2 = s
+            if side:
+                s2 = s.copy()
+                for x in side:
+                    s2.assume(x)
+            ex.oblige("inv-%s" % tag, s2, t, label="loop%d.%d" % (ordinal, k), info={"clause": cl})
 
     def assume(s):
         for cl in invs:
@@ -300,6 +327,8 @@ def _spec_env(ex, s):
         env.update({k: v for k, v in f.locals.items() if not k.startswith("__")})
     if s.ghost is not None:
         env["ghost"] = s.ghost
+    for k, v in getattr(ex, "unit_env", {}).items():
+        env.setdefault(k + "_0", v)         # entry values of the parameters
     return env
 
 
